@@ -73,6 +73,17 @@ class Ctx:
             "undecidable": 0,
         }
         self.assumptions = []
+        self.known_hit = {}
+        self.recorded = {}
+        self.known_cases = {}   # sig -> set of case hashes (known findings are identified by the specific failing input)
+        known, _ = load_known()
+        for k in known:
+            if k.get("property") == prop and k.get("cases"):
+                fp = os.path.join(HOME, k["cases"])
+                try:
+                    self.known_cases[k["sig"]] = set(json.load(open(fp))["cases"])
+                except Exception:  # noqa
+                    self.known_cases[k["sig"]] = set()
 
     # ---- parallel map -------------------------------------------------------------------
     def pool(self):
@@ -107,10 +118,17 @@ class Ctx:
     def add_violations(self, vs):
         for v in vs:
             sig = v.get("sig", "unclassified")
+            cases = self.known_cases.get(sig)
+            if cases is not None and case_sha(self.prop, sig, v.get("case")) in cases:
+                # a listed finding: this exact input fails with this exact signature on the unchanged tree
+                self.known_hit[sig] = self.known_hit.get(sig, 0) + 1
+                continue
             self.viol_count[sig] = self.viol_count.get(sig, 0) + 1
             lst = self.viol_by_sig.setdefault(sig, [])
             if len(lst) < 8:
                 lst.append(v)
+            if os.environ.get("VERIF_RECORD_CASES"):
+                self.recorded.setdefault(sig, set()).add(case_sha(self.prop, sig, v.get("case")))
 
     def sub(self, name, **kw):
         """Record coverage of a sub-check and fold its counts into the totals."""
@@ -238,24 +256,36 @@ def run_property(prop, tier, seed, quiet=False):
     known, _fixed = load_known()
     known = [k for k in known if k.get("property") == prop]
     known_sigs = {k["sig"]: k for k in known}
-    new, hit = [], {}
+    hit = dict(ctx.known_hit)
+    new = []
     for sig, lst in sorted(ctx.viol_by_sig.items()):
-        if sig in known_sigs:
-            hit[sig] = ctx.viol_count[sig]
-        else:
-            new.extend(lst[:4])
+        new.extend(lst[:4])
+    if os.environ.get("VERIF_RECORD_CASES"):
+        # maintenance mode (never used by the registered commands): dump the hashes of every failing case per signature
+        d = os.environ["VERIF_RECORD_CASES"]
+        os.makedirs(d, exist_ok=True)
+        with open(os.path.join(d, "%s_%s_%d.json" % (prop, tier, ctx.phase)), "w") as f:
+            json.dump({k: sorted(v) for k, v in ctx.recorded.items()}, f)
     replays = []
+    confirmed = []
     for v in new[:12]:
         path, rc, out = confirm_fresh(prop, v)
+        if rc != 1 and v.get("chunk_case"):
+            # not reproducible alone: replay the whole chunk it was observed in (the failure depends on earlier cases)
+            v2 = dict(v, case=v["chunk_case"], sig=v.get("sig"), msg="[only after the earlier cases of its chunk] " + str(v.get("msg")))
+            path, rc, out = confirm_fresh(prop, v2)
+            v = v2
         if rc != 1:
             raise HarnessError(
                 "case failed in the sweep but not when replayed in a fresh interpreter "
                 "(rc=%s): %s\n%s" % (rc, path, out)
             )
         replays.append(path)
+        confirmed.append(v)
+    new = confirmed
     ctx.cov["known_findings_hit"] = hit
     ctx.cov["violation_signatures"] = dict(ctx.viol_count)
-    nviol = sum(c for s, c in ctx.viol_count.items() if s not in known_sigs)
+    nviol = sum(ctx.viol_count.values())
     write_evidence(ctx, nviol)
     for sig, n in sorted(hit.items()):
         k = known_sigs[sig]
@@ -287,9 +317,8 @@ def replay(prop, path, quiet=False):
         if not quiet:
             for v in found:
                 print("  %s: %s" % (v.get("sig"), v.get("msg")))
-        known, _ = load_known()
-        sigs = {k["sig"] for k in known if k.get("property") == prop}
-        if all(v.get("sig") in sigs for v in found):
+        c = Ctx(prop, "quick", 0)
+        if all(v.get("sig") in c.known_cases and case_sha(prop, v.get("sig"), v.get("case")) in c.known_cases[v.get("sig")] for v in found):
             print("KNOWN-FINDING: property=%s sig=%s (replay)" % (prop, found[0].get("sig")))
             return 0
         print("VIOLATION property=%s replay=%s" % (prop, path))
